@@ -2,10 +2,11 @@
 import os
 from . import core, eng, gen, tiec, engcheck, tiea
 
-MODULES = ["AscentVerif.Props.C01", "AscentVerif.Props.TieD", "AscentVerif.Props.C01Plan"]
+MODULES = ["AscentVerif.Props.C01", "AscentVerif.Props.TieD", "AscentVerif.Props.C01Plan", "AscentVerif.Props.C01Phys"]
 THEOREMS = ["versionsBase_eq", "versionsBase_covers", "versionsBase_skips_old", "run_sound", "run_complete", "run_eq_leastModel",
             "run_exit_closed", "run_rows_set", "idxGet_spec", "iterAll_spec", "clause_step", "join_step", "join_step_swapped", "index_selection_eq",
-            "index_selection_sound_complete", "reordering_sound", "reordering_sound_evalBody", "head_rows_perm", "head_rows_perm_swapped", "guard_needed", "desugared_needed"]
+            "index_selection_sound_complete", "reordering_sound", "reordering_sound_evalBody", "head_rows_perm", "head_rows_perm_swapped", "guard_needed", "desugared_needed",
+            "runPhys_eq_leastModel", "ixSetsOf_covers", "tc_hyps"]
 TRUSTED = ["Lean 4.33.0 kernel", "axioms: propext, Classical.choice, Quot.sound only (audited per theorem)",
            "statements: Spec/Datalog.lean (Derivable = least model) and Props/C01.lean",
            "tie D: versions_base is re-translated from ascent_mir.rs on every run (tools/rs2lean.py) and proved equal to Engine.versionsBase for all n (Props/TieD.lean versionsBase_eq)",
@@ -13,6 +14,11 @@ TRUSTED = ["Lean 4.33.0 kernel", "axioms: propext, Classical.choice, Quot.sound 
            "iter_all / index_get loops of a simple join, the swapped copy of a reorderable rule) is proved to enumerate the same environments as the filter-level "
            "evalBody up to permutation (Props/C01Plan.lean: index_selection_sound_complete, reordering_sound, with the decide-d witnesses guard_needed / desugared_needed); "
            "Hir.compileRule itself is tied to the real compiler's mir_summary by tie A",
+           "Model/EnginePhys.lean: the generated code over its PHYSICAL indices (full index + one value-keyed hash index per column set and version, update_indices, "
+           "head update through insert_if_not_present, merges with the size-based swaps of C19's index models, plan-directed index_get / iter_all, the empty-relation guard, "
+           "the len_estimate choice between the two copies of a reorderable simple join); Props/C01Phys.lean runPhys_eq_leastModel: it computes exactly the least model "
+           "(forward simulation onto the nondeterministic engine of Proofs/NDEngine.lean) for desugared, well-scoped rules with a usable plan (planOk: decidable, evaluated by "
+           "the driver on every generated program; the count is in the evidence); tied by running every tie-B case through it as well (`eng runp`: rows with multiplicities and scc_iters)",
            "model Model/Engine.lean hand-written at MIR level after ascent_mir.rs / ascent_codegen.rs; index lookups are filters "
            "(hash indices themselves: C19); tied by compiling generated programs with the real macros and diffing relation contents "
            "(with multiplicities) and scc_iters against the Lean driver, plus an independent naive least-model oracle (tools/vlib/eng.py)",
@@ -93,6 +99,10 @@ def check(tier, replay=None):
         r.violation({"kind": "obligation-broken", "no_longer_checks": ["tie A: the in-process macro driver (ascent_macro --features verif-hooks) does not build/run"], "log": log[-2000:]}, no_input=True)
     elif proof.ok or os.path.exists(core.lean_driver()):
         mout = core.run_model([f"eng prog a{i} {eng.sx_prog(p)}" for i, p in enumerate(alist)] + [f"eng mir a{i}" for i in range(len(alist))])
+        # the hypotheses of runPhys_eq_leastModel (usable plan, desugared and well-scoped rules) evaluated on the same programs
+        hyp = core.run_model([f"eng prog a{i} {eng.sx_prog(p)}" for i, p in enumerate(alist)] + [f"eng planok a{i}" for i in range(len(alist))])[len(alist):]
+        r.cov["phys_theorem_hypotheses_hold_on"] = f"{sum(1 for h in hyp if h == 'planok=true desugared=true wellscoped=true')} of {len(hyp)} generated programs"
+        r.cov["phys_theorem_planok_false"] = sum(1 for h in hyp if "planok=false" in h)
         plan_bad, rejected = [], []
         for i, p in enumerate(alist):
             rr = res.get(f"a{i}", {})
